@@ -12,6 +12,7 @@ Properties/C02.lean — `pc` (pyrepseq/stats.py) is the exact fraction of coinci
 Only property theorems and non-vacuity examples live here; helpers are in Proofs/Stats.lean
 (and the counting bridges of Proofs/Prob7.lean, Prob8.lean).
 -/
+import Prs.Proofs.FormulasPc
 import Prs.Proofs.Stats
 
 open Finset BigOperators
@@ -202,6 +203,15 @@ example : encodeRow '.' [none] = encodeRow '.' [] ∧ [none].map cellText ≠ ([
 example : pcJoint '_' [[some ['a'], none], [some ['a'], some []], [some ['b'], some ['c']]]
     = pcTable [[some ['a'], none], [some ['a'], some []], [some ['b'], some ['c']]] :=
   C02_joint_eq_table _ 2 (by decide) (by decide) (by decide)
+
+/-! ### the source of `pc_n`, as translated from pyrepseq/stats.py on this run, is the model -/
+
+/-- `pc_n` of pyrepseq/stats.py (Generated/FormulasPc, re-translated from the source on every run) computes the
+    modelled `pcN` on every count vector -/
+theorem C02_source_pc_n (n : List ℕ) : Generated.pc_n (castCounts n) = pcN n := gen_pc_n_eq n
+
+example : Generated.pc_n (castCounts [2, 1, 3]) = 4 / 15 := by
+  rw [C02_source_pc_n]; decide +kernel
 
 end Prs
 
